@@ -1,21 +1,23 @@
 (* ConcFullProofs.v — the full statement of C10 for the guarded discipline and for the
    discipline the code follows; its refutation for the unguarded discipline. *)
 From Coq Require Import String List NArith Bool Arith Lia.
-From J5V.model Require Import Conc ConcSites ConcRace ConcStatement.
-From J5V.gen Require ConcGen.
-From J5V.proofs Require Import ConcProofs ConcInvProofs ConcTermProofs ConcMainProofs ConcRaceProofs.
+From J5V.model Require Import Conc ConcSites ConcCorr ConcRace ConcStatement ConcState.
+From J5V.gen Require ConcGen ConcStateGen.
+From J5V.proofs Require Import ConcProofs ConcInvProofs ConcTermProofs ConcMainProofs ConcRetProofs ConcRaceProofs.
 Import ListNotations.
 
 Lemma logic_guarded : C10_logic_statement Guarded.
 Proof.
-  intros k g calls Hok. split; [|split].
+  intros k g calls Hok. split; [|split; [|split; [|split]]].
   - intros sched t. apply guarded_results. exact Hok.
   - intros sched H. destruct (guarded_progress k g calls sched Hok H) as (t & H1 & _ & H3). exists t. split; assumption.
   - intros rounds. apply guarded_fair_complete. exact Hok.
+  - intros sched t1 t2 n c1 c2. apply guarded_ret_canonical. exact Hok.
+  - intros sched t n c. apply guarded_ret_linked. exact Hok.
 Qed.
 
 Lemma memory_guarded : C10_memory_statement Guarded.
-Proof. intros k g calls sched Hok. apply guarded_race_free. exact Hok. Qed.
+Proof. intros pk k g calls sched Hok. apply guarded_race_free. exact Hok. Qed.
 
 Lemma full_for_code : C10_full_statement code_disc.
 Proof. rewrite code_disc_guarded. split; [exact logic_guarded | exact memory_guarded]. Qed.
@@ -30,21 +32,22 @@ Proof.
     destruct j as [|j]; [discriminate Hj|].
     change (firstn (S j) [1%N]) with (1%N :: firstn j []) in Hj. cbn [map] in Hj.
     rewrite Es in Hj. discriminate Hj.
-  - intros H. apply unguarded_has_race. apply H. exact w1_calls_ok.
+  - intros H. apply unguarded_has_race. apply (H (fun _ => 0%N)). exact w1_calls_ok.
 Qed.
 
+(* the cache is the only mutable state a codec call reaches: the go/types census passes
+   every check of model/ConcState.v, and the codec's entry points are the expected ones *)
 Lemma no_other_state :
-  (ConcGen.cache_fields = expected_cache_fields /\
-   ConcGen.reflector_fields = expected_reflector_fields /\
-   ConcGen.codec_fields = expected_codec_fields) /\
-  (ConcGen.codec_pkg_vars = expected_codec_pkg_vars /\
-   ConcGen.reflect_pkg_vars = expected_reflect_pkg_vars /\
-   ConcGen.schema_pkg_vars = expected_schema_pkg_vars /\
-   ConcGen.codec_pkg_var_writers = [] /\ ConcGen.reflect_pkg_var_writers = [] /\ ConcGen.schema_pkg_var_writers = []) /\
-  (only_calls ConcGen.reflector_methods = true /\ ConcGen.reflector_package_vars = []) /\
-  (only_calls ConcGen.codec_methods = true /\ ConcGen.codec_package_vars = ["Global"%string]) /\
-  ConcGen.codec_entry_points = expected_codec_entry_points /\
-  ConcGen.schema_writers = expected_schema_writers.
+  census_ok = true /\ ConcGen.codec_entry_points = expected_codec_entry_points.
+Proof. exact (conj census_holds codec_entry_points_agree). Qed.
+
+(* exposed oneofs: what a caller sees is a view (ConcCorr.view: members regrouped under their
+   oneof, cut to the depth of observation) of the machine's result — a function of it, so
+   equal results give equal views *)
+Lemma guarded_results_view ex k g calls sched t : calls_ok calls ->
+  exists j, map (view ex k) (nth t (results (run Guarded k g calls sched)) []) =
+            map (fun n => view ex k (result_solo k g n)) (firstn j (nth t calls [])).
 Proof.
-  exact (conj struct_fields_agree (conj package_vars_agree (conj reflector_stateless (conj codec_stateless (conj codec_entry_points_agree schema_writers_agree))))).
+  intros H. destruct (guarded_results k g calls sched t H) as (j & E). exists j.
+  rewrite E, map_map. reflexivity.
 Qed.
